@@ -214,7 +214,8 @@ def run_session(s):
         ev = {"ev": "call", "f": c["f"], "variant": c.get("variant", 0), "raised": False, "err": "",
               "cfg": [c.get("backend", ""), c.get("dtype", ""), c.get("layout", "")]}
         if c.get("args") is None:
-            ins = A.build_inputs(entry, c["dtype"], c.get("layout", "C"), c.get("backend", "numpy"), c.get("seed", 0))
+            ins = A.build_inputs(entry, c["dtype"], c.get("layout", "C"), c.get("backend", "numpy"), c.get("seed", 0),
+                                 finite=bool(c.get("finite")))
             names = []
             for role, x, _m in ins:
                 nm = "%d_%s" % (k, role)
